@@ -83,3 +83,13 @@ Definition corr_dim (c : list (list str) * (nat * nat)) : bool :=
 (* str.strip / whitespace collapsing against CPython *)
 Definition corr_norm (is_ws : N -> bool) (c : str * str * str) : bool :=
   let '(x, stripped, normed) := c in str_eqb (strip is_ws x) stripped && str_eqb (html_norm is_ws x) normed.
+
+(* RTF: decoded text -> tables; unit-level: _strip_rtf_simple and _extract_table_cells *)
+Definition corr_rtf (is_ws is_word : N -> bool) (c : list rblock * str * list (list (list str))) : bool :=
+  let '(d, text, r) := c in str_eqb text (rtf_r_doc d) && tables_eqb (rtf_tables is_ws is_word text) r.
+Definition corr_rtf_text (is_ws is_word : N -> bool) (c : str * list (list (list str))) : bool :=
+  tables_eqb (rtf_tables is_ws is_word (fst c)) (snd c).
+Definition corr_rtf_strip (is_ws : N -> bool) (c : str * str) : bool :=
+  str_eqb (rtf_strip_simple is_ws (fst c)) (snd c).
+Definition corr_rtf_cells (is_ws is_word : N -> bool) (c : str * list str) : bool :=
+  list_eqb str_eqb (rtf_row_cells is_ws is_word (fst c)) (snd c).
